@@ -154,6 +154,51 @@ def ob_representation(mesh, refine, segmentwise=False, far=False):
     return held(txt)
 
 
+def replay_point_batches():
+    """Native: "for every evaluation point x": the value at a point does not depend on which other points are evaluated with it - the same 5 interior / exterior points
+    evaluated in batches of 1, 2, 3, 4 and 5 (3 x n arrays, n = 3 included) give the same values, and each batch satisfies the representation formula."""
+    import bempp_cl.api as api
+    from bempp_cl.api.operators.potential import laplace
+
+    warnings.simplefilter("ignore")
+    grid = SG.make_grid(*SG.octa())
+    for _ in range(2):
+        grid = grid.refine()
+    par = Z.params(10, 2)
+    cen = grid.vertices.mean(axis=1)
+    pts = np.array([cen + d for d in ([0.05, 0.02, -0.04], [-0.08, 0.05, 0.03], [0.02, -0.07, 0.06], [3.0, 0.2, 0.1], [-0.4, 2.8, 0.3])]).T
+    a, b = np.array([0.2, -0.7, 0.5]), 0.3
+    p1, dp0 = api.function_space(grid, "P", 1), api.function_space(grid, "DP", 0)
+    gcoef = a @ grid.vertices + b
+    psi = grid.normals @ a
+    exact = np.concatenate([a @ pts[:, :3] + b, np.zeros(2)])
+    failing = []
+
+    def value(P):
+        s_ = laplace.single_layer(dp0, P, parameters=par).evaluate(api.GridFunction(dp0, coefficients=psi))
+        d_ = laplace.double_layer(p1, P, parameters=par).evaluate(api.GridFunction(p1, coefficients=gcoef))
+        return (s_ - d_).ravel()
+
+    full = value(pts)
+    for n in (1, 2, 3, 4):
+        for start in range(0, 5 - n + 1, max(1, n - 1)):
+            sub = value(np.ascontiguousarray(pts[:, start:start + n]))
+            err = float(np.abs(sub - exact[start:start + n]).max())
+            dev = float(np.abs(sub - full[start:start + n]).max())
+            if err > 1e-6 or dev > 1e-12:
+                failing.append("points %d..%d evaluated as a batch of %d: error %.2e against u(x) / 0, deviation %.2e from the batch of 5" % (start, start + n - 1, n, err, dev))
+    return {"violates": bool(failing), "failing": failing}
+
+
+def ob_point_batches():
+    """bounded: see replay_point_batches"""
+    r = replay_point_batches()
+    if r["violates"]:
+        return violated("the representation formula depends on how the evaluation points are batched: %s" % r["failing"][:3], witness={"failing": r["failing"]}, signature="point-batches",
+                        replay={"callable": "checks.c02:replay_point_batches", "kwargs": {}, "confirmed": True, "result": r})
+    return held("batches of 1..5 points agree and satisfy the formula")
+
+
 def ob_order_sweep(mesh, refine):
     """bounded: "all regular quadrature orders >= 8": the representation error is <= 1e-6 relative at EVERY regular order 8..20 of the rule table
     (each order maps to its own stored rule, so a single bad table entry or offset is visible at one order only)."""
@@ -208,6 +253,7 @@ def main():
     run.add("PotentialAssembler.evaluate::complex-split", "bounded", ob_complex_split)
     run.add("representation.octa(refined 2)", "bounded", ob_representation, "octa", 2)
     run.add("representation.octa(refined 2): every regular order 8..20", "bounded", ob_order_sweep, "octa", 2)
+    run.add("representation.octa(refined 2): point batches of size 1..5", "bounded", ob_point_batches)
     run.add("representation.octa(refined 2, trace split into an extended piece and an interior piece)", "bounded", ob_representation, "octa", 2, "extended")
     run.add("representation.octa(refined 2, translated to (4e5, 5.5e6, 120))", "bounded", ob_representation, "octa", 2, False, True)
     if thorough:
